@@ -3,11 +3,11 @@
    (tied to the Rust serializers by the correspondence runs of C01 and of this check).
    Spec: Cddl/ConwayCddl.v (transcription of the Conway CDDL) judged by the validator of Cddl/Validator.v over the
    independent CBOR reader of Cbor/Item.v. *)
-From CSL Require Import Num.Value Cddl.NoZeroAssets Builder.Totals Builder.Change Cddl.ChangeNoZero Cddl.NormPos.
+From CSL Require Import Num.Value Cddl.NoZeroAssets Builder.Totals Builder.Change Builder.Scenario Cddl.ChangeNoZero Cddl.NormPos Cddl.Histories.
 From CSL Require Import Base.Prelude Cbor.Head Cbor.Item Cbor.ItemProofs Codec.Schema Codec.SchemaProofs
   Ledger.Schemas Ledger.SchemasProofs
   Cddl.Rules Cddl.Validator Cddl.ValidatorProofs Cddl.ConwayCddl Cddl.ToItem Cddl.ToItemProofs Cddl.CanonProofs
-  Cddl.Tables Cddl.Pairing Cddl.Conforms Cddl.ConformsProofs Cddl.KnownClass.
+  Cddl.Tables Cddl.Pairing Cddl.Conforms Cddl.ConformsProofs Cddl.KnownClass Cddl.Refines Cddl.RefinesProofs.
 Local Open Scope N_scope.
 
 (* the independent reader parses the emitted bytes (one item, nothing left over) into exactly the tree [to_item s v] *)
@@ -108,8 +108,67 @@ Proof.
 Qed.
 Print Assumptions C03_mint_int64_refuted.
 
-(* the value-INDEPENDENT form of the statement, kept visible: a boolean structural comparison [refines] between schema
-   and rule alone, true on all pairs.  NOT proved, and not provable for these schemas: they are wider than the Conway
+(* block headers (outside the literal scope of the property: not a part of a transaction).  The library writes a header body
+   FLAT; with the single Babbage/Conway VRF result that is 14 items, the shape of no era (known finding
+   C03-praos-header-body-flat): rejected by the Conway header_body rule (10 items, nested operational_cert and
+   protocol_version), accepted once that one rule is replaced by the flat single-VRF rule. *)
+Theorem C03_praos_header_flat_refuted : exists v,
+  wfv HeaderBodyPraos v = true /\
+  cddl_ok_bytes conway_env (RRef N_header_body) (enc HeaderBodyPraos v) = false /\
+  judge_class_header (RRef N_header_body) (enc HeaderBodyPraos v) = 4.
+Proof.
+  exists (VList [VNat 1; VNat 2; VNull; VBytes (repeat 1 32); VBytes (repeat 2 32); VList [VBytes [7]; VBytes (repeat 3 80)];
+                 VNat 100; VBytes (repeat 4 32); VBytes (repeat 5 32); VNat 6; VNat 7; VBytes (repeat 8 64); VNat 9; VNat 0]).
+  vm_compute. repeat split.
+Qed.
+Print Assumptions C03_praos_header_flat_refuted.
+
+(* (4') the value-INDEPENDENT comparison and its soundness.  [refines e fuel s r] (Cddl/Refines.v) looks at schema and rule
+   only; when it answers true, EVERY schema-valid value of s is emitted as bytes the validator accepts for r.  One generic
+   proof (refines => conforms for all values, induction on fuel; then C03_conforms). *)
+Theorem C03_refines_sound : forall e f s r, refines e f s r = true -> wfs s = true ->
+  forall v, wfv s v = true -> exists fuel, cddl_ok_bytes_fuel e fuel r (enc s v) = true.
+Proof.
+  intros e f s r Hr Hs v Hv. destruct (refines_sound e f s r Hr Hs v Hv) as [g G]. exists g.
+  apply conforms_bytes_sound; assumption.
+Qed.
+Print Assumptions C03_refines_sound.
+
+(* where it answers true and where the schema is WIDER than the rule: the verdict on the 64 pairs of Pairing.conway_pairs
+   (unrolling depth 2), a finite computation.  true (26): Credential, Credentials, Ed25519KeyHashes, DRep, Anchor, Relay,
+   Relays, PoolMetadata, ProtocolVersion, ExUnits, Voter, VotingProcedure, Constitution, NativeScript, NativeScripts,
+   PlutusScripts, TransactionMetadatum, GeneralTransactionMetadata, AuxiliaryData, ScriptRef, Vkeywitness, Vkeywitnesses,
+   Int, VRFCert, OperationalCert (and their uses).  false: every type that contains one of the wider SITES -
+     u32 / u64 where the rule has `uint .size 2` / `.size 4` (tx-input and gov-action index, five protocol parameters,
+       redeemer index, transaction_index), Int where the rule has int64 (cost models, mint, native-script n is fine);
+     a LOWER bound the schema language cannot express: positive_coin (asset quantities, donation), non-zero mint, `{+ }` / `[+ ]`
+       / nonempty_set on a collection whose non-emptiness comes from the enclosing optional field, denominator > 0 and
+       numerator <= denominator of unit intervals;
+     address and reward-account BYTES (header nibble / length consistency is in writer_form, not in wfv);
+     Vec-backed maps that may repeat a key (Mint, Redeemers map form, PlutusMap);
+     Plutus lists (an indefinite EMPTY list is schema-valid) and the Plutus-data datum set (no NoDup in the schema);
+     pre-Conway items (body key 6, certificates 5 / 6, parameter keys 12-14) and the flat header bodies.
+   For all of those C03_conforms reads the condition off the value instead. *)
+Theorem C03_refines_pairs :
+  map (fun p => refines conway_env 80 (fst p) (snd p)) (conway_pairs 2) =
+  [false; false; true; true; true; true; true; false; true; true; true; true; true; false; false; false; false; false; false;
+   false; false; true; false; true; false; false; false; false; false; true; false; false; false; true; true; true; false;
+   false; false; true; true; true; true; false; false; false; false; false; false; true; true; false; false; false; false;
+   true; true; true; false; false; false; false; false; false].
+Proof. vm_compute. reflexivity. Qed.
+Print Assumptions C03_refines_pairs.
+
+(* single sites, pinned: the same shape with the rule's bound refines, the implementation's wider one does not *)
+Example C03_wider_sites :
+  refines conway_env 20 (arr [H32; U16]) transaction_input = true /\ refines conway_env 20 TransactionInput transaction_input = false /\
+  refines conway_env 20 (SUint 18446744073709551616) positive_coin = false /\ refines conway_env 20 (SUint 18446744073709551616) coin = true /\
+  refines conway_env 20 (SBytes 29 57) RAddress = false /\ refines conway_env 20 UnitInterval unit_interval = false /\
+  refines conway_env 40 (SArrOf 0 IntS) cost_model = false /\ refines conway_env 40 (SArrOf 0 IntS) (RArrOf 0 r_int) = true.
+Proof. vm_compute. repeat split. Qed.
+
+(* the value-INDEPENDENT form of the statement in its strongest reading, kept visible: a sound [refines] that is true on ALL
+   pairs.  The soundness half is C03_refines_sound; the "true on all pairs" half is false (C03_refines_pairs: 26 of 64),
+   and not repairable for these schemas: they are wider than the Conway
    rules exactly where the API admits CDDL-invalid values (u32 indices, Int vs int64), and lower bounds (positive_coin,
    denominator > 0, [+ a] on a collection whose non-emptiness comes from the enclosing optional field) are not
    expressible in the schema language, so [refines] is false on every transaction-level pair.  C03_conforms is the
@@ -190,6 +249,39 @@ Theorem C03_stored_amounts_pos : forall v,
   value_pos v = negb (Num.ValueNorm.value_has_empty_entries v).
 Proof. exact stored_amounts_pos. Qed.
 Print Assumptions C03_stored_amounts_pos.
+
+(* (5'') the builder clause over HISTORIES, premise-free on the inputs: on C05's builder model (Builder/Scenario.v: input,
+   output, certificates, withdrawals, proposals, mint set/add, donation, treasury, set_fee, set_min_fee, add_change,
+   add_inputs_from_and_change, build_tx; sizes and fees from the recorded-answer oracle, whatever it answers), starting from a
+   NEW builder, every transaction build_tx releases has outputs free of zero quantities and empty policy bundles - provided
+   change is only computed while no mint line has the stored sum 0 ([history_ok]: at each add_change /
+   add_inputs_from_and_change, [mint_nonzero], which is exactly the test MintBuilder::build applies before a transaction is
+   released).  That is all the mint side needs: a zero line is counted as a minted asset of quantity 0 by
+   Mint::as_positive_multiasset and would flow into the change. *)
+Theorem C03_builder_histories_no_zero_assets : forall cfg utxos l,
+  history_ok utxos l (new_state cfg) = true ->
+  forall b, snd (run_ops utxos l (new_state cfg)) = Some b -> body_pos b.
+Proof. exact builder_histories_no_zero_assets. Qed.
+Print Assumptions C03_builder_histories_no_zero_assets.
+
+(* the invariant behind it, for every reachable state *)
+Theorem C03_builder_reachable_states : forall utxos l s, J s -> history_ok utxos l s = true ->
+  J (snd (fst (run_ops utxos l s))).
+Proof. intros utxos l s Hs Hh. exact (proj1 (run_ops_J utxos l s Hs Hh)). Qed.
+Print Assumptions C03_builder_reachable_states.
+
+(* the premises are satisfiable on a history that releases a transaction: an input given WITH a zero-quantity asset (stored
+   without it), an output, a fixed fee, build_tx *)
+Example C03_history_example :
+  let p := repeat 1 28 in
+  let utxos := [(1, mkValue 10 (Some [(p, [([65], 0)])]))] in
+  let e := mkTape [] None false in
+  let l := [(OpInput 1, e); (OpOutput (mkOutput 7 (value_new 4) 0), mkTape [(site_S, Some 0); (site_A, Some 0)] None false);
+            (OpSetFee 6, e); (OpBuild, mkTape [(site_F, Some 0); (site_T, Some 0)] None false)] in
+  history_ok utxos l (new_state (mkConfig 0 0 false false)) = true /\
+  exists b, snd (run_ops utxos l (new_state (mkConfig 0 0 false false))) = Some b /\ length (b_outputs b) = 1%nat /\
+            b_inputs b = [(1, mkValue 10 (Some []))].
+Proof. cbv zeta. split; [vm_compute; reflexivity|]. eexists. vm_compute. repeat split. Qed.
 
 (* ---- non-vacuity ---- *)
 Example C03_tables_nonempty :
